@@ -65,7 +65,8 @@ def table(fn, vs):
 
 
 def ast_table(a, vs):
-    return table(lambda env: ast_eval(a, env), vs)
+    vm, full = var_masks(vs)
+    return mask_str(ast_mask(a, vm, full), vs)
 
 
 def strip_par(a):
@@ -244,22 +245,146 @@ def ser_tree(node, ids):
 
 
 # ----------------------------------------------------------------------------------- the real code
-def hs_eval(h, env):
-    """Boolean function of the live HalfSpace objects (the object the API exposes)."""
+_MASKS = {}
+
+
+def var_masks(vs):
+    """bit k of mask j is set iff variable j is true in row k (row k: variable j = bit j of k)"""
+    key = len(vs)
+    if key not in _MASKS:
+        n = 2 ** key
+        ms = []
+        for j in range(key):
+            m = 0
+            for k in range(n):
+                if (k >> j) & 1:
+                    m |= 1 << k
+            ms.append(m)
+        _MASKS[key] = (ms, (1 << n) - 1)
+    ms, full = _MASKS[key]
+    return {v: ms[j] for j, v in enumerate(vs)}, full
+
+
+def mask_str(m, vs):
+    n = 2 ** len(vs)
+    return format(m, f"0{n}b")[::-1]
+
+
+def str_mask(t):
+    return int(t[::-1], 2) if t else 0
+
+
+def hs_mask(h, vm, full, subst=None):
+    """truth table of the live HalfSpace objects as a bit mask; `subst = (object, mask)`"""
     from montepy.surfaces.half_space import UnitHalfSpace
     from montepy.geometry_operators import Operator
 
+    if subst is not None and h is subst[0]:
+        return subst[1]
+    if isinstance(h, UnitHalfSpace):
+        n = h.divider if isinstance(h.divider, int) else h.divider.number
+        if h.is_cell:
+            return vm[(True, n)]
+        return vm[(False, n)] if h.side else full & ~vm[(False, n)]
+    if h.operator == Operator.COMPLEMENT:
+        return full & ~hs_mask(h.left, vm, full, subst)
+    if h.operator == Operator.INTERSECTION:
+        return hs_mask(h.left, vm, full, subst) & hs_mask(h.right, vm, full, subst)
+    if h.operator == Operator.UNION:
+        return hs_mask(h.left, vm, full, subst) | hs_mask(h.right, vm, full, subst)
+    raise AssertionError(h.operator)
+
+
+def hs_table(h, vs, subst=None):
+    vm, full = var_masks(vs)
+    return mask_str(hs_mask(h, vm, full, subst), vs)
+
+
+def ast_mask(a, vm, full):
+    e = a["e"]
+    if e == "s":
+        m = vm[(False, a["n"])]
+        return full & ~m if a["sign"] == "-" else m
+    if e == "c":
+        return full & ~vm[(True, a["n"])]
+    if e == "and":
+        return ast_mask(a["a"], vm, full) & ast_mask(a["b"], vm, full)
+    if e == "or":
+        return ast_mask(a["a"], vm, full) | ast_mask(a["b"], vm, full)
+    if e == "not":
+        return full & ~ast_mask(a["a"], vm, full)
+    if e == "par":
+        return ast_mask(a["a"], vm, full)
+    raise AssertionError(e)
+
+
+def _land(a, b):
+    return "".join("1" if x == "1" and y == "1" else "0" for x, y in zip(a, b))
+
+
+def _lor(a, b):
+    return "".join("1" if x == "1" or y == "1" else "0" for x, y in zip(a, b))
+
+
+def _lnot(a):
+    return "".join("0" if x == "1" else "1" for x in a)
+
+
+def tree_nodes(g, binary_only=False, path=""):
+    """(path, object) of the HalfSpaces of a live tree in preorder; the cell leaf of a `#n` is not addressed."""
+    from montepy.surfaces.half_space import UnitHalfSpace
+    from montepy.geometry_operators import Operator
+
+    out = []
+    if isinstance(g, UnitHalfSpace):
+        if not binary_only and not g.is_cell:
+            out.append((path, g))
+        return out
+    if not binary_only or g.operator != Operator.COMPLEMENT:
+        out.append((path, g))
+    out += tree_nodes(g.left, binary_only, path + "l")
+    if g.right is not None:
+        out += tree_nodes(g.right, binary_only, path + "r")
+    return out
+
+
+def tree_nodes_all(g, path=""):
+    """every HalfSpace of a live tree (also the cell leaves) in preorder"""
+    from montepy.surfaces.half_space import UnitHalfSpace
+
+    out = [(path, g)]
+    if not isinstance(g, UnitHalfSpace):
+        out += tree_nodes_all(g.left, path + "l")
+        if g.right is not None:
+            out += tree_nodes_all(g.right, path + "r")
+    return out
+
+
+def node_at(g, path):
+    for d in path:
+        g = g.left if d == "l" else g.right
+    return g
+
+
+def hs_eval(h, env, subst=None):
+    """Boolean function of the live HalfSpace objects (the object the API exposes).
+    `subst = (object, value)`: that object (by identity) has the given value."""
+    from montepy.surfaces.half_space import UnitHalfSpace
+    from montepy.geometry_operators import Operator
+
+    if subst is not None and h is subst[0]:
+        return subst[1]
     if isinstance(h, UnitHalfSpace):
         n = h.divider if isinstance(h.divider, int) else h.divider.number
         if h.is_cell:
             return env[(True, n)]
         return env[(False, n)] == h.side
     if h.operator == Operator.COMPLEMENT:
-        return not hs_eval(h.left, env)
+        return not hs_eval(h.left, env, subst)
     if h.operator == Operator.INTERSECTION:
-        return hs_eval(h.left, env) and hs_eval(h.right, env)
+        return hs_eval(h.left, env, subst) and hs_eval(h.right, env, subst)
     if h.operator == Operator.UNION:
-        return hs_eval(h.left, env) or hs_eval(h.right, env)
+        return hs_eval(h.left, env, subst) or hs_eval(h.right, env, subst)
     raise AssertionError(h.operator)
 
 
@@ -359,7 +484,7 @@ def run_impl(case):
             prob.cells.append(cell)
         res["init_str"] = str(cell.geometry)
         vs = [tuple(v) for v in case["vars"]]
-        res["init_table"] = table(lambda env: hs_eval(cell.geometry, env), vs) if hs_leaves(cell.geometry, set()) <= set(vs) else None
+        res["init_table"] = hs_table(cell.geometry, vs) if hs_leaves(cell.geometry, set()) <= set(vs) else None
         for op in case["ops"]:
             k = op["k"]
             st = {}
@@ -376,54 +501,109 @@ def run_impl(case):
                 else:
                     st["text"] = geometry_text(lines, 1)
             else:
-                if k == "not":
-                    cell.geometry = ~cell.geometry
-                elif k == "setop":
-                    # hs.operator = ... on a binary root (nothing is done on a leaf or a complement)
-                    from montepy.geometry_operators import Operator
+                if k in ("setdiv", "setside"):
+                    # leaf edits (UnitHalfSpace.divider / .side setters): judged by the oracle only — the model does
+                    # not cover ValueNode.format of an edited value (properties C04/C05)
                     from montepy.surfaces.half_space import UnitHalfSpace
 
-                    g = cell.geometry
-                    if not isinstance(g, UnitHalfSpace) and g.operator != Operator.COMPLEMENT:
-                        tl = table(lambda env: hs_eval(g.left, env), vs)
-                        tr = table(lambda env: hs_eval(g.right, env), vs)
-                        if op["o"] == "inter":
-                            st["expect"] = "".join("1" if a == "1" and b == "1" else "0" for a, b in zip(tl, tr))
-                            g.operator = Operator.INTERSECTION
-                        else:
-                            st["expect"] = "".join("1" if a == "1" or b == "1" else "0" for a, b in zip(tl, tr))
-                            g.operator = Operator.UNION
-                else:
-                    if "xt" in op:
-                        # the operand is the geometry of another cell that was read
-                        try:
-                            other = mp.cell_from(f"{10 + len(res['steps'])} 0 " + op["xt"])
-                        except (montepy.errors.ParsingError, montepy.errors.MalformedInputError) as e:
-                            return {"rejected": type(e).__name__}
-                        prob.cells.append(other)
-                        other.link_to_problem(prob)
-                        other.update_pointers(prob.cells, prob.materials, prob.surfaces)
-                        st["xtree"] = ser_tree(other._tree["geometry"], ids)
-                        x = other.geometry
+                    leaves_ = [(p_, o_) for p_, o_ in tree_nodes_all(cell.geometry) if isinstance(o_, UnitHalfSpace)
+                               and not (k == "setside" and o_.is_cell)]
+                    if not leaves_:
+                        st["noop"] = True
                     else:
-                        x = build(op["x"], prob)
-                    if k == "and":
-                        cell.geometry = cell.geometry & x
-                    elif k == "rand":
-                        cell.geometry = x & cell.geometry
-                    elif k == "or":
-                        cell.geometry = cell.geometry | x
-                    elif k == "ror":
-                        cell.geometry = x | cell.geometry
-                    elif k == "iand":
-                        cell.geometry &= x
-                    elif k == "ior":
-                        cell.geometry |= x
+                        path, leaf = leaves_[op.get("sel", 0) % len(leaves_)]
+                        st["path"] = path
+                        st["leaf_edit"] = True
+                        vm, full = var_masks(vs)
+                        if k == "setside":
+                            t_new = mask_str(full & ~hs_mask(leaf, vm, full), vs)
+                        elif leaf.is_cell:
+                            t_new = mask_str(vm[(True, op["nc"])], vs)
+                        else:
+                            m = vm[(False, op["n"])]
+                            t_new = mask_str(m if leaf.side else full & ~m, vs)
+                        st["expect"] = hs_table(cell.geometry, vs, (leaf, str_mask(t_new)))
+                        if k == "setside":
+                            leaf.side = not leaf.side
+                        elif leaf.is_cell:
+                            leaf.divider = prob.cells[op["nc"]]
+                        else:
+                            leaf.divider = prob.surfaces[op["n"]]
+                    st["str"] = str(cell.geometry)
+                    st["table"] = hs_table(cell.geometry, vs) if hs_leaves(cell.geometry, set()) <= set(vs) else None
+                    res["steps"].append(st)
+                    continue
+                # the HalfSpace the edit addresses: preorder index `sel` among the nodes the edit can be applied to
+                nodes = tree_nodes(cell.geometry, binary_only=(k == "setop"))
+                if not nodes:
+                    st["noop"] = True
+                else:
+                    path, sub = nodes[op.get("sel", 0) % len(nodes)]
+                    st["path"] = path
+                    t_sub = hs_table(sub, vs)
+                    x = None
+                    if k not in ("not", "setop"):
+                        if "xt" in op:
+                            # the operand is the geometry of another cell that was read
+                            try:
+                                other = mp.cell_from(f"{10 + len(res['steps'])} 0 " + op["xt"])
+                            except (montepy.errors.ParsingError, montepy.errors.MalformedInputError) as e:
+                                return {"rejected": type(e).__name__}
+                            prob.cells.append(other)
+                            other.link_to_problem(prob)
+                            other.update_pointers(prob.cells, prob.materials, prob.surfaces)
+                            st["xtree"] = ser_tree(other._tree["geometry"], ids)
+                            x = other.geometry
+                        else:
+                            x = build(op["x"], prob)
+                        t_x = hs_table(x, vs)
+                    # what the edit means at that node, from the operands' tables ...
+                    if k == "not":
+                        t_new = _lnot(t_sub)
+                    elif k == "setop":
+                        tl = hs_table(sub.left, vs)
+                        tr = hs_table(sub.right, vs)
+                        t_new = _land(tl, tr) if op["o"] == "inter" else _lor(tl, tr)
+                    elif k in ("and", "rand", "iand"):
+                        t_new = _land(t_sub, t_x)
+                    elif k in ("or", "ror", "ior"):
+                        t_new = _lor(t_sub, t_x)
+                    elif k == "replace":
+                        t_new = t_x
                     else:
                         raise AssertionError(k)
+                    # ... and for the whole geometry: everything outside the addressed node is unchanged
+                    root = cell.geometry
+                    st["expect"] = hs_table(root, vs, (sub, str_mask(t_new)))
+                    from montepy.geometry_operators import Operator
+
+                    if k == "setop":
+                        sub.operator = Operator.INTERSECTION if op["o"] == "inter" else Operator.UNION
+                    else:
+                        if k == "not":
+                            new = ~sub
+                        elif k == "and":
+                            new = sub & x
+                        elif k == "rand":
+                            new = x & sub
+                        elif k == "or":
+                            new = sub | x
+                        elif k == "ror":
+                            new = x | sub
+                        elif k == "iand":
+                            new = sub.__iand__(x)  # `where &= x` is: where = where.__iand__(x)
+                        elif k == "ior":
+                            new = sub.__ior__(x)
+                        else:
+                            new = x
+                        if path == "":
+                            cell.geometry = new
+                        else:
+                            parent = node_at(cell.geometry, path[:-1])
+                            setattr(parent, "left" if path[-1] == "l" else "right", new)
             st["str"] = str(cell.geometry)
             lv = hs_leaves(cell.geometry, set())
-            st["table"] = table(lambda env: hs_eval(cell.geometry, env), vs) if lv <= set(vs) else None
+            st["table"] = hs_table(cell.geometry, vs) if lv <= set(vs) else None
             res["steps"].append(st)
     except Exception as e:  # noqa: BLE001  an exception of the real code is an observation
         res["raised"] = f"{type(e).__name__}: {e}"[:300]
@@ -449,15 +629,17 @@ def expected_tables(case, impl=None):
     out = [cur]
     for op in case["ops"]:
         k = op["k"]
-        if k == "not":
+        i = len(out) - 1
+        st = impl["steps"][i] if impl is not None and i < len(impl.get("steps", [])) else None
+        if k == "write" or (st is not None and st.get("noop")):
+            pass
+        elif st is not None and "expect" in st:
+            # what the edit means at the addressed node (from the operands' tables, taken from the live operands just
+            # before the edit), everything outside that node unchanged
+            cur = st["expect"]
+        elif k == "not":
             cur = lnot(cur)
-        elif k == "setop":
-            # the new operator applied to the unchanged operands (their tables were taken from the live objects
-            # just before the edit); no change on a leaf / complement root
-            i = len(out) - 1
-            if impl is not None and i < len(impl.get("steps", [])) and "expect" in impl["steps"][i]:
-                cur = impl["steps"][i]["expect"]
-        elif k != "write":
+        elif k in ("and", "rand", "iand", "or", "ror", "ior"):
             x = ast_table(op["x"], vs)
             cur = land(cur, x) if k in ("and", "rand", "iand") else lor(cur, x)
         out.append(cur)
@@ -494,20 +676,79 @@ def gen_ops(rng, maxlen=8):
         r = rng.random()
         if r < 0.04:
             ops.append({"k": "setop", "o": rng.choice(["inter", "union"])})
+        elif r < 0.07:
+            if rng.random() < 0.5:
+                ops.append({"k": "setside"})
+            else:
+                ops.append({"k": "setdiv", "n": rng.choice(SURFACES), "nc": rng.choice(CELLS)})
         elif r < 0.12:
             ops.append({"k": "not"})
         elif r < 0.30:
             ops.append({"k": "write"})
         else:
-            k = rng.choice(["and", "or", "rand", "ror", "iand", "iand", "ior", "ior"])
+            k = rng.choice(["and", "or", "rand", "ror", "iand", "iand", "ior", "ior", "replace"])
             op = {"k": k, "x": gen_ast(rng, rng.choice([1, 1, 1, 2, 2, 3]), par=False)}
             if rng.random() < 0.2:
                 # operand = geometry of another cell that was read (keeps its padding and comments)
                 op["x"] = gen_ast(rng, rng.choice([1, 2, 2, 3]), par=True)
                 op["xt"] = render(op["x"], rng) + rng.choice(TRAIL)
             ops.append(op)
+    # 45 % of the edits address an inner HalfSpace (selector -> preorder index in the live tree at that moment)
+    for op in ops:
+        if op["k"] != "write" and (rng.random() < 0.45 or op["k"] in ("setside", "setdiv")):
+            op["sel"] = rng.randrange(0, 64)
     ops.append({"k": "write"})
     return ops
+
+
+def plain_asts(n):
+    """all ASTs with n leaves over {and, or}, no complement, no redundant parentheses (leaf i = surface i+1)"""
+    import itertools
+
+    for shape in shapes(n):
+        inner = []
+
+        def collect(s, path):
+            if s != "L":
+                inner.append(path)
+                collect(s[0], path + "l")
+                collect(s[1], path + "r")
+
+        collect(shape, "")
+        for ops in itertools.product(["and", "or"], repeat=len(inner)):
+            opmap = dict(zip(inner, ops))
+            counter = [0]
+
+            def mk(s, path):
+                if s == "L":
+                    counter[0] += 1
+                    return {"e": "s", "n": counter[0], "sign": "-" if counter[0] % 2 == 0 else ""}
+                return {"e": opmap[path], "a": mk(s[0], path + "l"), "b": mk(s[1], path + "r")}
+
+            yield mk(shape, ""), len(inner)
+
+
+def gen_write_edit_write(max_leaves, full_upto):
+    """write; edit the HalfSpace at every address; write — for every small tree, from scratch and parsed."""
+    nine = {"e": "s", "n": 9, "sign": ""}
+    for n in range(2, max_leaves + 1):
+        for a, nbin in plain_asts(n):
+            for origin in ("parsed", "scratch"):
+                for j in range(nbin):
+                    for o in ("inter", "union"):
+                        yield origin, a, [{"k": "write"}, {"k": "setop", "o": o, "sel": j}, {"k": "write"}]
+                        if n <= full_upto:
+                            yield origin, a, [{"k": "setop", "o": o, "sel": j}, {"k": "write"}]
+                if n <= full_upto:
+                    for j in range(2 * n - 1):
+                        for k in ("ior", "iand", "not", "replace"):
+                            e = {"k": k, "sel": j}
+                            if k != "not":
+                                e["x"] = {"e": "or", "a": nine, "b": {"e": "s", "n": 8, "sign": "-"}} if k == "replace" else nine
+                            yield origin, a, [{"k": "write"}, e, {"k": "write"}]
+                    for j in range(n):
+                        yield origin, a, [{"k": "write"}, {"k": "setside", "sel": j}, {"k": "write"}]
+                        yield origin, a, [{"k": "write"}, {"k": "setdiv", "n": 9, "nc": 91, "sel": j}, {"k": "write"}]
 
 
 def make_case(origin, init, ops, rng=None, plain=False):
@@ -516,6 +757,10 @@ def make_case(origin, init, ops, rng=None, plain=False):
     for op in ops:
         if "x" in op:
             leaves(op["x"], vs)
+        if op["k"] == "setdiv":
+            for v in ((False, op["n"]), (True, op["nc"])):
+                if v not in vs:
+                    vs.append(v)
     case["vars"] = [list(v) for v in sorted(vs)]
     if origin == "parsed":
         case["text"] = render(init, rng, 0, plain) + ("" if plain else rng.choice(TRAIL))
